@@ -88,3 +88,16 @@ Definition quote_char (safe : str) (c : Z) : str :=
 Definition quote (safe : str) (s : str) : str := flat_map (quote_char safe) s.
 
 Definition is_scalar (c : Z) : bool := (0 <=? c) && (c <? 1114112) && negb ((55296 <=? c) && (c <=? 57343)).
+
+(* s.startswith(p) *)
+Fixpoint startswith (p s : str) : bool :=
+  match p, s with
+  | [], _ => true
+  | x :: p', y :: s' => (x =? y) && startswith p' s'
+  | _ :: _, [] => false
+  end.
+
+(* s.strip(chr c) for a one-character set *)
+Fixpoint lstrip_char (c : Z) (s : str) : str :=
+  match s with x :: r => if x =? c then lstrip_char c r else s | [] => [] end.
+Definition strip_char (c : Z) (s : str) : str := rev (lstrip_char c (rev (lstrip_char c s))).
